@@ -43,10 +43,7 @@ func c10Messages(rec *httptest.ResponseRecorder) ([]map[string]any, error) {
 	ct := rec.Header().Get("Content-Type")
 	switch {
 	case strings.HasPrefix(ct, "text/event-stream"):
-		for evt, err := range scanEvents(bytes.NewReader(rec.Body.Bytes())) {
-			if err != nil {
-				return nil, err
-			}
+		for _, evt := range hxParseSSE(rec.Body.Bytes()) {
 			if len(evt.Data) > 0 {
 				chunks = append(chunks, evt.Data)
 			}
@@ -348,6 +345,159 @@ func c10CutRetry(store bool) vs.Verdict {
 	return f.verdict(obs)
 }
 
+// c10ServerRequests: server-to-client requests issued while handling a request.  Two concurrent
+// tools/call POSTs on one session; each handler asks the client to sample (sampling/createMessage,
+// tagged through the system prompt) and returns the client's reply.  The server's request must
+// travel on the exchange of the call whose handler issued it (on the standalone stream in
+// JSON-response mode), and each handler must get the reply to its own request, whichever order the
+// client answers in.
+func c10ServerRequests(jsonResp bool) vs.Verdict {
+	f := &e1Fail{prefix: "c10 server-requests"}
+	ctx := context.Background()
+	vs.Quiet(true)
+	s := NewServer(&Implementation{Name: "srv", Version: "1"}, &ServerOptions{Logger: quietLogger})
+	AddTool(s, &Tool{Name: "ask"}, func(ctx context.Context, r *CallToolRequest, in c10Args) (*CallToolResult, any, error) {
+		res, err := r.Session.CreateMessage(ctx, &CreateMessageParams{SystemPrompt: in.Tag, MaxTokens: 1, Messages: []*SamplingMessage{}})
+		if err != nil {
+			return nil, nil, err
+		}
+		text := "?"
+		if tc, ok := res.Content.(*TextContent); ok {
+			text = tc.Text
+		}
+		return &CallToolResult{Content: []Content{&TextContent{Text: in.Tag + "<-" + text}}}, nil, nil
+	})
+	h := NewStreamableHTTPHandler(func(*http.Request) *Server { return s }, &StreamableHTTPOptions{JSONResponse: jsonResp, Logger: quietLogger})
+	post := func(sid, body string) *httptest.ResponseRecorder {
+		r := httptest.NewRequest("POST", "http://example.test/mcp", strings.NewReader(body))
+		r.Header.Set("Content-Type", "application/json")
+		r.Header.Set("Accept", "application/json, text/event-stream")
+		if sid != "" {
+			r.Header.Set("Mcp-Session-Id", sid)
+		}
+		r.Header.Set("Mcp-Protocol-Version", "2025-06-18")
+		w := httptest.NewRecorder()
+		h.ServeHTTP(w, r)
+		return w
+	}
+	w := post("", `{"jsonrpc":"2.0","id":"i","method":"initialize","params":{"protocolVersion":"2025-06-18","capabilities":{"sampling":{}},"clientInfo":{"name":"c","version":"1"}}}`)
+	sid := w.Header().Get("Mcp-Session-Id")
+	post(sid, `{"jsonrpc":"2.0","method":"notifications/initialized","params":{}}`)
+	gctx, gcancel := context.WithCancel(ctx)
+	standalone := httptest.NewRecorder()
+	vs.Go(func() {
+		r := httptest.NewRequest("GET", "http://example.test/mcp", nil).WithContext(gctx)
+		r.Header.Set("Accept", "text/event-stream")
+		r.Header.Set("Mcp-Session-Id", sid)
+		r.Header.Set("Mcp-Protocol-Version", "2025-06-18")
+		h.ServeHTTP(standalone, r)
+	})
+	vs.WaitIdle()
+	vs.Quiet(false)
+	tags := []string{"A1", "A2"}
+	recs := map[string]*httptest.ResponseRecorder{}
+	// in JSON-response mode nothing is written to a POST's exchange before it completes: each
+	// POST gets a recorder the harness can inspect while the handler is still waiting
+	done := make(chan int, 4)
+	for i, tag := range tags {
+		rec := httptest.NewRecorder()
+		recs[tag] = rec
+		vs.Go(func() {
+			r := httptest.NewRequest("POST", "http://example.test/mcp", strings.NewReader(fmt.Sprintf(`{"jsonrpc":"2.0","id":%d,"method":"tools/call","params":{"name":"ask","arguments":{"tag":%q}}}`, i+1, tag)))
+			r.Header.Set("Content-Type", "application/json")
+			r.Header.Set("Accept", "application/json, text/event-stream")
+			r.Header.Set("Mcp-Session-Id", sid)
+			r.Header.Set("Mcp-Protocol-Version", "2025-06-18")
+			h.ServeHTTP(rec, r)
+			done <- 1
+		})
+	}
+	vs.WaitIdle() // both handlers wait for the client's replies
+	// where did the server's requests travel?
+	type sreq struct {
+		where string
+		id    any
+		tag   string
+	}
+	var found []sreq
+	scan := func(where string, rec *httptest.ResponseRecorder) {
+		for _, evt := range hxParseSSE(rec.Body.Bytes()) {
+			var m map[string]any
+			if len(evt.Data) == 0 || json.Unmarshal(evt.Data, &m) != nil {
+				continue
+			}
+			if m["method"] == "sampling/createMessage" {
+				p, _ := m["params"].(map[string]any)
+				tag, _ := p["systemPrompt"].(string)
+				found = append(found, sreq{where: where, id: m["id"], tag: tag})
+			}
+		}
+	}
+	scan("A1", recs["A1"])
+	scan("A2", recs["A2"])
+	scan("standalone", standalone)
+	if len(found) != 2 {
+		f.failf("server-request-not-delivered", "two handlers each issued sampling/createMessage but %d requests reached the client: %+v", len(found), found)
+	}
+	for _, q := range found {
+		want := q.tag
+		if jsonResp {
+			want = "standalone"
+		}
+		if q.where != want {
+			f.failf("server-request-on-foreign-exchange", "the sampling request issued while handling %s travelled on %s, want %s (json mode %v)", q.tag, q.where, want, jsonResp)
+		}
+	}
+	// the client answers, in either order
+	if len(found) == 2 && vs.Choose("answer-order", 2, 0) == 1 {
+		found[0], found[1] = found[1], found[0]
+	}
+	for _, q := range found {
+		idJSON, _ := json.Marshal(q.id)
+		w := post(sid, fmt.Sprintf(`{"jsonrpc":"2.0","id":%s,"result":{"role":"assistant","model":"m","content":{"type":"text","text":"reply-%s"}}}`, idJSON, q.tag))
+		if w.Code >= 300 {
+			f.failf("client-response-rejected", "the client's reply to the sampling request of %s was answered %d %s", q.tag, w.Code, w.Body.String())
+		}
+	}
+	if f.sig == "" {
+		for range tags {
+			<-done
+		}
+	}
+	vs.Quiet(true)
+	gcancel()
+	for ss := range s.Sessions() {
+		ss.Close()
+	}
+	vs.WaitIdle()
+	vs.Quiet(false)
+	if f.sig != "" {
+		return f.verdict("")
+	}
+	var summary []string
+	for _, tag := range tags {
+		msgs, err := c10Messages(recs[tag])
+		if err != nil {
+			f.failf("garbage-on-exchange", "exchange of %s: %v", tag, err)
+			continue
+		}
+		responses := 0
+		for _, m := range msgs {
+			if kind, text := c10TagOf(m); kind == "response" {
+				responses++
+				if text != tag+"<-reply-"+tag {
+					f.failf("reply-misrouted", "the handler of %s returned %q: it received the reply to another handler's request, or its response travelled on a foreign exchange", tag, text)
+				}
+			}
+		}
+		if responses != 1 {
+			f.failf("response-count", "the exchange of %s carries %d responses: %q", tag, responses, recs[tag].Body.String())
+		}
+		summary = append(summary, fmt.Sprintf("%s:%dmsg", tag, len(msgs)))
+	}
+	return f.verdict(strings.Join(summary, " "))
+}
+
 func TestVerifC10(t *testing.T) {
 	env := verifx.LoadEnv("C10")
 	b := env.Pick(1, 2)
@@ -360,6 +510,8 @@ func TestVerifC10(t *testing.T) {
 		mk("stateless-sse", c10Opts{stateless: true}, b),
 		mk("stateful-sse/duplicate-in-flight-id", c10Opts{dupID: true}, env.Pick(2, 3)),
 		mk("stateful-sse+store/duplicate-in-flight-id", c10Opts{dupID: true, store: true}, env.Pick(2, 3)),
+		vs.E1(t, "stateful-sse/server-requests-during-calls", b, vs.Options{}, func() vs.Verdict { return c10ServerRequests(false) }),
+		vs.E1(t, "stateful-json/server-requests-during-calls", b, vs.Options{}, func() vs.Verdict { return c10ServerRequests(true) }),
 		vs.E1(t, "stateful-sse/cut-then-retry-same-id", env.Pick(2, 3), vs.Options{}, func() vs.Verdict { return c10CutRetry(false) }),
 		vs.E1(t, "stateful-sse+store/cut-then-retry-same-id", env.Pick(2, 3), vs.Options{}, func() vs.Verdict { return c10CutRetry(true) }),
 	}
